@@ -47,7 +47,7 @@ class C18(Check):
                    'running: struct/member agreement is read under the module\'s access lock)',
                    'closest allowed value: ties may go either way']
     PROBES = ('c18.struct-op', 'c18.floatenum-op', 'c18.limit-op', 'c18.inverted-limits', 'c18.control-op',
-              'c18.driver-op', 'c18.wire-op', 'c18.takeover', 'c18.concurrent-driver-assignment', 'fault.hw-read', 'fault.hw-write', 'c18.stale-controller-output')
+              'c18.driver-op', 'c18.wire-op', 'c18.takeover', 'c18.concurrent-driver-assignment', 'fault.hw-read', 'fault.hw-write', 'c18.stale-controller-output', 'c18.second-output-op')
 
     def gen_case(self, rng, tier):
         members = rng.sample(['a', 'b', 'c'], rng.choice([2, 3]))
@@ -55,7 +55,7 @@ class C18(Check):
         shape = {'p_switch': rng.choice([0.1, 0.3]), 'line_gaps': rng.choice([0, 0, 10]),
                  'members': members, 'struct_rw': rng.random() < 0.5, 'labels': labels,
                  'limits': rng.choice(['min', 'max', 'minmax', 'limits']), 'nctl': rng.choice([1, 2, 3]),
-                 'poll': rng.random() < 0.5, 'split': rng.random() < 0.4,
+                 'poll': rng.random() < 0.5, 'split': rng.random() < 0.4, 'second_output': rng.random() < 0.5,
                  'fe_hw_max': rng.randrange(len(labels)) if rng.random() < 0.4 else None}
         ops = []
         for _ in range(rng.randrange(3, 26 if tier == 'thorough' else 18)):
@@ -82,7 +82,8 @@ class C18(Check):
                     op['lo'], op['hi'] = max(op['lo'], op['hi']) + 1, min(op['lo'], op['hi'])
                 op['which'] = rng.choice(['min', 'max'])
             else:
-                op = {'group': 'control', 'kind': rng.choice(['ctl', 'ctl', 'out', 'stale']), 'c': rng.randrange(shape['nctl']),
+                op = {'group': 'control', 'kind': rng.choice(['ctl', 'ctl', 'out', 'stale', 'ctlb', 'outb']),
+                      'c': rng.randrange(shape['nctl']),
                       'v': round(rng.random() * 100, 1)}
             op['who'] = who
             if op['group'] in ('struct', 'fe') and rng.random() < 0.3:
@@ -198,12 +199,18 @@ class C18(Check):
                'out': {'cls': Out, 'description': 'output'}}
         for i in range(shape['nctl']):
             cfg[f'ctl{i}'] = {'cls': Ctl, 'description': f'controller {i}', 'output_module': 'out'}
+        if shape.get('second_output'):
+            # a second, independent output with a controller of its own in the same node
+            cfg['outb'] = {'cls': Out, 'description': 'second output'}
+            cfg['ctlb'] = {'cls': Ctl, 'description': 'controller of the second output', 'output_module': 'outb'}
         srv = world.make_server('n', cfg)
         srv._processCfg()
         world.serve(srv)
         mod = srv.secnode.modules['m']
         out = srv.secnode.modules['out']
         ctls = [srv.secnode.modules[f'ctl{i}'] for i in range(shape['nctl'])]
+        outb = srv.secnode.modules.get('outb')
+        ctlb = srv.secnode.modules.get('ctlb')
         cl = nodeworld.RawClient(world)
         steps = ctx['steps'] = []
         vdict = {i: label_value(lb) for i, lb in enumerate(shape['labels'])}
@@ -218,6 +225,9 @@ class C18(Check):
                 x = mod.x
                 lims = mod._limits_now()
             return {'st': st, 'mem': mem, 'fe': fe, 'idx': idx, 'x': x, 'lims': lims,
+                    'active_b': None if ctlb is None else bool(ctlb.control_active),
+                    'controlled_by_b': None if outb is None else str(
+                        outb.controlled_by.name if hasattr(outb.controlled_by, 'name') else outb.controlled_by),
                     'active': [bool(c.control_active) for c in ctls],
                     'controlled_by': str(out.controlled_by.name if hasattr(out.controlled_by, 'name') else out.controlled_by),
                     'out_target': out.target}
@@ -322,10 +332,23 @@ class C18(Check):
                                 getattr(mod, f'write_x_{which}')(op['lo'])
                 else:
                     sim.count('c18.control-op')
-                    if k == 'stale':
+                    if k in ('ctlb', 'outb'):
+                        sim.count('c18.second-output-op')
+                        if ctlb is None:
+                            pass
+                        elif k == 'ctlb':
+                            if who == 'wire':
+                                reply = wire(f'change ctlb:target {json.dumps(op["v"])}')
+                            else:
+                                ctlb.write_target(op['v'])
+                        elif who == 'wire':
+                            reply = wire(f'change outb:target {json.dumps(op["v"])}')
+                        else:
+                            outb.write_target(op['v'])
+                    elif k == 'stale':
                         # a control loop delivers an output it calculated before (it may have lost control meanwhile)
                         name = f'ctl{op["c"] % shape["nctl"]}'
-                        sim.count('c18.stale-controller-output')
+                        sim.count('c18.stale-controller-output', 'c18.second-output-op')
                         out.update_target(name, op['v'])
                     elif k == 'ctl':
                         name = f'ctl{op["c"] % shape["nctl"]}'
@@ -432,6 +455,20 @@ class C18(Check):
                 res.append(Violation('C18.inverted-limits-accepted', op['who'],
                                      f'{what}: x_limits = [{op["lo"]}, {op["hi"]}] accepted (reply {s["reply"]})'))
                 return res
+            # the second output: its controller is marked active exactly when the output names it
+            if a.get('controlled_by_b') is not None:
+                if a['active_b'] != (a['controlled_by_b'] == 'ctlb') or a['controlled_by_b'] not in ('self', 'ctlb'):
+                    res.append(Violation('C18.controlled-by-mismatch', 'second-output',
+                                         f'{what}: second output says controlled_by = {a["controlled_by_b"]}, its '
+                                         f'controller is {"active" if a["active_b"] else "not active"}'))
+                    return res
+                if op['group'] == 'control' and op['kind'] not in ('ctlb', 'outb') and \
+                        (a['active_b'], a['controlled_by_b']) != (b['active_b'], b['controlled_by_b']):
+                    res.append(Violation('C18.controlled-by-mismatch', 'other-output-disturbed',
+                                         f'{what}: an operation on the first output changed the control state of the '
+                                         f'second one from {b["active_b"]}/{b["controlled_by_b"]} to '
+                                         f'{a["active_b"]}/{a["controlled_by_b"]}'))
+                    return res
             # control hand-over
             nact = sum(a['active'])
             if nact > 1:
@@ -447,7 +484,13 @@ class C18(Check):
                 res.append(Violation('C18.controlled-by-mismatch', 'nobody',
                                      f'{what}: no controller active but controlled_by = {a["controlled_by"]}'))
                 return res
-            if op['group'] == 'control' and accepted:
+            if op['group'] == 'control' and op['kind'] in ('ctlb', 'outb'):
+                if (a['active'], a['controlled_by']) != (b['active'], b['controlled_by']):
+                    res.append(Violation('C18.controlled-by-mismatch', 'other-output-disturbed',
+                                         f'{what}: an operation on the second output changed the control state of the '
+                                         f'first one from {b["active"]}/{b["controlled_by"]} to {a["active"]}/{a["controlled_by"]}'))
+                    return res
+            elif op['group'] == 'control' and accepted:
                 if op['kind'] == 'ctl':
                     me = op['c'] % shape['nctl']
                     if not a['active'][me]:
